@@ -18,7 +18,10 @@ CHECKS = {
                 'streams in 1/2/short-read chunks, str/bytes subclasses) is '
                 'stored and read back through every accessor for every '
                 'threshold, pickle protocol and JSONDisk level; type-and-value '
-                'equality or rejection by exception is required.',
+                'equality or rejection by exception is required; in addition '
+                'an OS error is injected at every file event of storing a '
+                'file-backed value (rejected with the key unchanged, or '
+                'intact).',
                 note='values, lengths and types outside the alphabet are not '
                 'covered; custom Disk subclasses out of scope', ref='§3 C01'),
     'C02': dict(engine='GRID', tech='bounded-exhaustive enumeration of all '
@@ -51,7 +54,10 @@ CHECKS = {
                 'executed on real client threads; each complete execution '
                 'must be linearizable w.r.t. the reference dictionary with '
                 'the one tolerated relaxation, and end with consistent '
-                'bookkeeping.',
+                'bookkeeping; this includes lookups against delete+insert of '
+                'another key (row-id reuse) and a second handle being opened '
+                '(every statement of the constructor is a scheduling point) '
+                'while another client writes.',
                 note='scheduling points at SQL statements and file-system '
                 'calls; Python code between them runs atomically; processes '
                 'represented by clients with separate Cache objects',
@@ -129,7 +135,11 @@ CHECKS.update({
                 'interleaving of 2 contenders (and bounded schedules of 3-4) '
                 'is executed; the number of holders recorded by the harness '
                 'never exceeds the capacity, nobody deadlocks, releases of '
-                'what is not held are refused.',
+                'what is not held are refused; real processes: a forked child '
+                '(inherited or own object) and separately started '
+                'interpreters with other hash seeds (lock rebuilt from the '
+                'directory or received by pickle) must wait while the parent '
+                'holds the lock and acquire once it is free.',
                 note='time.sleep in spin loops yields to the scheduler; spin '
                 'loops are assumed stateless across iterations; processes '
                 'represented by separate Cache objects', ref='§3 C15'),
@@ -188,7 +198,10 @@ CHECKS.update({
                 'directory create/remove; a handle opened before the kill and '
                 'handles opened afterwards must see the old or the new state '
                 '(bulk removals: anything between), read every present key, '
-                'write at once, and check(fix=True) must leave a clean cache.',
+                'write at once, and check(fix=True) must leave a clean cache; '
+                'through an LD_PRELOAD shim the kill is also placed before '
+                'every write-class system call below the directory, i.e. '
+                'inside SQLite\'s commit.',
                 note='kills land on shim-level event boundaries; instants '
                 'inside one SQLite call are left to SQLite\'s own recovery; '
                 'process death, not power loss', ref='§3 C07'),
@@ -217,7 +230,9 @@ CHECKS.update({
                 '(PYTHONHASHSEED 0/1/random) and compared with routing '
                 'recorded from the pinned commit; data written by another '
                 'interpreter is found; numerically equal keys are compared '
-                'for every shard count 1..16; size_limit division.',
+                'for every shard count 1..16; routing asked of one long-lived '
+                'FanoutCache after it has seen the other keys; size_limit '
+                'division.',
                 note='', ref='§3 C13'),
     'C14': dict(engine='FAULT', tech='exhaustive enumeration of lock-'
                 'contention scenarios per operation against an '
@@ -231,7 +246,9 @@ CHECKS.update({
                 'items removed) and change nothing, retrying calls must wait '
                 'and then give the uncontended result and state, sharded '
                 'caches must report through their return value, lock-free '
-                'lookups must keep working.',
+                'lookups must keep working; sharded bulk removals are also '
+                'run against a shard that stays busy for > 60 virtual '
+                'seconds.',
                 note='contender = second SQLite connection in the same '
                 'thread, busy timeout 0', ref='§3 C14'),
     'C16': dict(engine='GRID+SEQ', tech='bounded-exhaustive enumeration of '
@@ -254,7 +271,9 @@ CHECKS.update({
                 '151 file-backed items: plain check() reports every damage '
                 'and changes nothing, check(fix=True) reports no less, a '
                 'second check() is silent, remaining items are readable and '
-                'undamaged ones untouched.',
+                'undamaged ones untouched; plain check() against a concurrent '
+                'writer (all schedules) may only report in-flight value '
+                'files.',
                 note='', ref='§3 C17'),
     'C18': dict(engine='SEQ+GRID', tech='explicit-state BFS with handle '
                 'events + bounded-exhaustive settings grid + replay of a '
